@@ -669,7 +669,7 @@ func c11Scenarios() []c11Scenario {
 			}
 			return
 		})})
-	return sc
+	return append(sc, c11MoreScenarios()...)
 }
 
 func keysS(m map[string]bool) []string {
